@@ -187,18 +187,20 @@ Theorem mentioned_params_declared : forall dedup_ty dedup_lt fuel d p f, wf_decl
   In (param_arg p) (map ident_only (diff_enum_params dedup_ty dedup_lt d)).
 Proof. exact ParseHeaderProof.mentioned_params_declared. Qed.
 (* (d) every use of the two diff enums of a struct - their definitions, the Into impl, `type Diff`, `type DiffRef` - applies them to exactly
-   the parameters they declare, in the same order ('__diff_target first for the borrowed one): no arity or order mismatch can arise *)
+   the parameters they declare, in the same order ('__diff_target first for the borrowed one - declared only when there is an unskipped field
+   to borrow from, the repair of D5): no arity or order mismatch can arise *)
 Theorem diff_enum_uses_consistent : forall dedup_ty dedup_lt c gs d,
   let st := expected dedup_ty dedup_lt d in
   let hs := struct_headers c gs st in
   let U := diff_enum_params dedup_ty dedup_lt d in
   let E := diff_enum_name (attrs_expose (s_attrs st)) (d_name d) in
+  let TL := target_lifetime (filter (fun f => negb (attrs_skip (f_attrs f))) (s_fields st)) in
   (exists pre w, nth_error hs 0 = Some (pre ++ (TId "pub" :: TId "enum" :: TId E :: nil) ++ angle (map ident_with_const U) ++ TId "where" :: w)) /\
-  (exists pre w, nth_error hs 1 = Some (pre ++ (TId "pub" :: TId "enum" :: TId (E ++ "Ref")%string :: nil) ++ angle (lt_target :: map ident_with_const U) ++ TId "where" :: w)) /\
-  (exists w, nth_error hs 2 = Some (TId "impl" :: angle (lt_target :: map ident_with_const U) ++ (TId "Into" :: TP PLt :: TId E :: nil) ++ angle (map ident_only U) ++
-                                      (TP PGt :: TId "for" :: TId (E ++ "Ref")%string :: nil) ++ angle (lt_target :: map ident_only U) ++ TId "where" :: w)) /\
+  (exists pre w, nth_error hs 1 = Some (pre ++ (TId "pub" :: TId "enum" :: TId (E ++ "Ref")%string :: nil) ++ angle (TL ++ map ident_with_const U) ++ TId "where" :: w)) /\
+  (exists w, nth_error hs 2 = Some (TId "impl" :: angle (TL ++ map ident_with_const U) ++ (TId "Into" :: TP PLt :: TId E :: nil) ++ angle (map ident_only U) ++
+                                      (TP PGt :: TId "for" :: TId (E ++ "Ref")%string :: nil) ++ angle (TL ++ map ident_only U) ++ TId "where" :: w)) /\
   nth_error hs 4 = Some ((TId "type" :: TId "Diff" :: TP PEq :: TId E :: nil) ++ angle (map ident_only U)) /\
-  (exists w, nth_error hs 5 = Some ((TId "type" :: TId "DiffRef" :: TP PLt :: nil) ++ lt_target ++ (TP PGt :: TP PEq :: TId (E ++ "Ref")%string :: nil) ++ angle (lt_target :: map ident_only U) ++ TId "where" :: w)).
+  (exists w, nth_error hs 5 = Some ((TId "type" :: TId "DiffRef" :: TP PLt :: nil) ++ lt_target ++ (TP PGt :: TP PEq :: TId (E ++ "Ref")%string :: nil) ++ angle (TL ++ map ident_only U) ++ TId "where" :: w)).
 Proof. exact ParseHeaderProof.diff_enum_uses_consistent. Qed.
 (* the generated TYPE DEFINITIONS of a struct (model P/ParseBody.v: variant lists of the two diff enums and the aliases of recurse fields, compared
    with the real expansion token by token). (e) whenever the templates do not panic, the borrowed diff enum has the variants of the owned one under
